@@ -66,8 +66,10 @@ func createStructDesc(rv reflect.Value) (*structDesc, error) {
 	}
 	sd, err := newStructDescAndPrefetch(rt)
 	if err != nil {
+		rollbackPrefetch()
 		return nil, err
 	}
+	commitPrefetch()
 	sds.Set(abiType, sd)
 	if rv.Kind() == reflect.Ptr {
 		sds.Set(rvTypePtr(rv), sd) // *struct and struct share the same structDesc
@@ -76,6 +78,31 @@ func createStructDesc(rv reflect.Value) (*structDesc, error) {
 }
 
 var prefetchStructDescCache = map[reflect.Type]*structDesc{}
+
+// what the current createStructDesc call has added to the caches, protected by sdsmu.
+// tType objects are shared between structs (see ttypes), so if the build fails midway,
+// descs built so far may have been linked to a tType or cached while they still
+// reference the type that failed. Everything must be undone, or the next call on a
+// type of the same cluster would succeed with a half-built desc.
+var (
+	prefetchAddedTypes  []reflect.Type
+	prefetchLinkedTypes []*tType
+)
+
+func commitPrefetch() {
+	prefetchAddedTypes = prefetchAddedTypes[:0]
+	prefetchLinkedTypes = prefetchLinkedTypes[:0]
+}
+
+func rollbackPrefetch() {
+	for _, t := range prefetchAddedTypes {
+		delete(prefetchStructDescCache, t)
+	}
+	for _, t := range prefetchLinkedTypes {
+		t.Sd = nil
+	}
+	commitPrefetch()
+}
 
 func newStructDescAndPrefetch(t reflect.Type) (*structDesc, error) {
 	if sd := prefetchStructDescCache[t]; sd != nil {
@@ -86,6 +113,7 @@ func newStructDescAndPrefetch(t reflect.Type) (*structDesc, error) {
 		return nil, err
 	}
 	prefetchStructDescCache[t] = sd
+	prefetchAddedTypes = append(prefetchAddedTypes, t)
 	if err := prefetchSubStructDesc(sd); err != nil {
 		delete(prefetchStructDescCache, t)
 		return nil, err
@@ -125,6 +153,7 @@ func fetchStructDesc(t *tType) error {
 		return err
 	}
 	t.Sd = sd
+	prefetchLinkedTypes = append(prefetchLinkedTypes, t)
 	return nil
 }
 
